@@ -90,6 +90,8 @@ var variants = []variant{
 	{"link-rel-target-rel-spelling", ".", "links/lnrel", "link-rel-cwd"},
 	{"link-rel-target-from-decoy-cwd", "other/sub", "{R}/links/lnrel", "link-rel-cwd"},
 	{"link-chain", "other", "{R}/ln2", "link-chain"},
+	{"link-chain-across-dirs", "other/sub", "{R}/chainA/deep/first", "link-chain"},
+	{"link-chain-across-dirs-rel", "chainA/deep", "first", "link-chain"},
 	{"link-trailing-slash", "other", "{R}/lnabs/", "link-slash"},
 	{"link-rel-trailing-slash", "other", "{R}/links/lnrel/", "link-slash"},
 }
@@ -116,6 +118,8 @@ func setupArena(c Case) (r, src string, vars map[string]string, cleanup func(), 
 		{Path: "lnabs", Kind: "symlink", Target: "{R}/src"},
 		{Path: "parentlink", Kind: "symlink", Target: "."},
 		{Path: "ln2", Kind: "symlink", Target: "lnabs"},
+		{Path: "chainA/deep/first", Kind: "symlink", Target: "../../chainB/second"},
+		{Path: "chainB/second", Kind: "symlink", Target: "../src"},
 	}
 	err = fsx.Materialise(r, extra, vars)
 	if err != nil {
